@@ -245,3 +245,184 @@ def pf_int_powers():
                               ", ".join(i + "u64" for i in items), m.group(2), r, st.group(1)),
                           "%s: LARGE_POW%d_STEP = %s, limbs [%s, ...]" % (rel, r, st.group(1), items[0])))
     return facts, ["lexical-parse-float::table_{decimal,binary,radix}::SMALL_INT_POW*", "…::LARGE_POW* / LARGE_POW*_STEP"], TBL_PRELUDE
+
+
+# ---------------------------------------------------------------------------
+# lexical-write-float: Dragonbox cache, log approximations, derived thresholds
+
+def _log_consts(src):
+    """(multiplier, subtrahend, shift) of each `q.wrapping_mul(M)[.wrapping_sub(S)] >> K` helper, copied from source."""
+    out = {}
+    for m in re.finditer(r'pub const fn (floor_log\w+)\(q: i32\) -> i32 \{\s*q\.wrapping_mul\((\d+)\)(?:\.wrapping_sub\((\d+)\))? >> (\d+)\s*\}', src):
+        out[m.group(1)] = (int(m.group(2)), int(m.group(3) or 0), int(m.group(4)))
+    return out
+
+
+def _log_prelude(consts):
+    lines = []
+    for name, (mul, sub, sh) in sorted(consts.items()):
+        lines.append("pub open spec fn %s(q: int) -> int { (q * %d - %d) / %d }" % (name, mul, sub, 1 << sh))
+    return "\n".join(lines)
+
+
+def _floor_log_fact(kind, q, expr):
+    """closed fact: `expr` (an int expression) is the true floor of the logarithm for argument q."""
+    k = "(%s)" % expr
+    if kind == "log10_pow2":      # 10^k <= 2^q < 10^(k+1)
+        b_in, b_out = 2, 10
+    elif kind == "log2_pow10":    # 2^k <= 10^q < 2^(k+1)
+        b_in, b_out = 10, 2
+    elif kind == "log5_pow2":     # 5^k <= 2^q < 5^(k+1)
+        b_in, b_out = 2, 5
+    else:
+        raise ValueError(kind)
+    if q >= 0:
+        # k >= 0
+        return "%s >= 0 && pw(%d, %s as nat) <= pw(%d, %d) && pw(%d, %d) < pw(%d, (%s + 1) as nat)" % (
+            k, b_out, k, b_in, q, b_in, q, b_out, k)
+    # q < 0: x = b_in^q = 1 / b_in^|q| ; k < 0 ;  b_out^k <= x  <=>  b_in^|q| <= b_out^|k| ; x < b_out^(k+1) <=> b_out^(|k|-1) < b_in^|q|
+    return "%s < 0 && pw(%d, %d) <= pw(%d, (-%s) as nat) && pw(%d, (-%s - 1) as nat) < pw(%d, %d)" % (
+        k, b_in, -q, b_out, k, b_out, k, b_in, -q)
+
+
+@gen("wf-dragonbox-table")
+def wf_dragonbox_table():
+    """DRAGONBOX{32,64}_POWERS_OF_FIVE[k - SMALLEST] == ceil(5^k * 2^s) normalised to 64 / 128 bits."""
+    src = _read("lexical-write-float/src/table_dragonbox.rs")
+    facts = []
+    for bits, tag in ((64, "32"), (128, "64")):
+        smallest = int(re.search(r'pub const SMALLEST_F%s_POW5: i32 = (-?\d+);' % tag, src).group(1))
+        largest = int(re.search(r'pub const LARGEST_F%s_POW5: i32 = (-?\d+);' % tag, src).group(1))
+        m = re.search(r'pub const DRAGONBOX%s_POWERS_OF_FIVE: \[[^\]]*\] = \[(.*?)\n\];' % tag, src, re.S)
+        body = _strip_comments(m.group(1))
+        if bits == 64:
+            rows = [(x, None) for x in re.findall(r'(0x[0-9a-fA-F_]+)\s*,', body)]
+        else:
+            rows = re.findall(r'\(\s*(0x[0-9a-fA-F_]+)\s*,\s*(0x[0-9a-fA-F_]+)\s*\)\s*,', body)
+        facts.append(("DRAGONBOX%s::len" % tag, "%d == %d - (%d) + 1" % (len(rows), largest, smallest), "rows=%d" % len(rows)))
+        for i, row in enumerate(rows):
+            k = smallest + i
+            T = row[0] + "nat" if bits == 64 else "mk(%s, %s)" % row
+            rng = "pw(2, %d) <= %s && %s < pw(2, %d)" % (bits - 1, T, T, bits)
+            if k >= 0:
+                p5 = 5 ** k
+                s = (bits - 1) - (p5.bit_length() - 1)
+                if s >= 0:
+                    fact = "%s && %s == pw(5, %d) * pw(2, %d)" % (rng, T, k, s)
+                else:
+                    # T = ceil(5^k / 2^t):  (T - 1) * 2^t < 5^k <= T * 2^t
+                    fact = "%s && (%s - 1) * pw(2, %d) < pw(5, %d) && pw(5, %d) <= %s * pw(2, %d)" % (rng, T, -s, k, k, T, -s)
+            else:
+                n = -k
+                p5 = 5 ** n
+                # T = ceil(2^s / 5^n) with T in [2^(bits-1), 2^bits): s = bits - 1 + bitlen(5^n) - (1 if 5^n is a power of two else 0)
+                s = bits - 1 + p5.bit_length()
+                if (2 ** s + p5 - 1) // p5 >= 2 ** bits:
+                    s -= 1
+                fact = "%s && (%s - 1) * pw(5, %d) < pw(2, %d) && pw(2, %d) <= %s * pw(5, %d)" % (rng, T, n, s, s, T, n)
+            facts.append(("DRAGONBOX%s_POWERS_OF_FIVE[%d] (5^%d)" % (tag, i, k), fact, str(row)))
+    return facts, ["lexical-write-float::table_dragonbox::DRAGONBOX32_POWERS_OF_FIVE", "…::DRAGONBOX64_POWERS_OF_FIVE"], ""
+
+
+FLOATS = {
+    # name: (mantissa_size, min binary exponent, max binary exponent of finite values, kappa regex tag)
+    "f32": dict(p=23, emin=-149, emax=104, tag="32"),
+    "f64": dict(p=52, emin=-1074, emax=971, tag="64"),
+}
+
+
+@gen("wf-dragonbox-logs")
+def wf_dragonbox_logs():
+    """The integer log approximations are exact on every argument Dragonbox can pass, and every derived
+    table index / shift stays in range (per binary exponent of f32 and f64)."""
+    src = _read("lexical-write-float/src/algorithm.rs")
+    tab = _read("lexical-write-float/src/table_dragonbox.rs")
+    consts = _log_consts(src)
+    need = ["floor_log10_pow2", "floor_log2_pow10", "floor_log5_pow2"]
+    facts = []
+    for n in need:
+        if n not in consts:
+            raise RuntimeError("lost anchor: %s not found in algorithm.rs" % n)
+    for fname, f in FLOATS.items():
+        kappa = int(re.search(r'impl DragonboxFloat for %s \{\s*const KAPPA: u32 = (\d+);' % fname, src).group(1))
+        smallest = int(re.search(r'pub const SMALLEST_F%s_POW5: i32 = (-?\d+);' % f["tag"], tab).group(1))
+        largest = int(re.search(r'pub const LARGEST_F%s_POW5: i32 = (-?\d+);' % f["tag"], tab).group(1))
+        for e in range(f["emin"], f["emax"] + 1):
+            # normal interval: minus_k = floor_log10_pow2(e) - kappa ; pow5 index -minus_k ; beta = e + floor_log2_pow10(-minus_k)
+            mk = "(floor_log10_pow2(%d as int) - %d)" % (e, kappa)
+            facts.append(("%s::floor_log10_pow2(%d)" % (fname, e), _floor_log_fact("log10_pow2", e, "floor_log10_pow2(%d as int)" % e),
+                          "floor_log10_pow2 = q * %d >> %d" % (consts["floor_log10_pow2"][0], consts["floor_log10_pow2"][2])))
+            facts.append(("%s::normal::power-index+beta(%d)" % (fname, e),
+                          "%d <= -%s && -%s <= %d && 1 <= %d + floor_log2_pow10(-%s) && %d + floor_log2_pow10(-%s) < 64" % (
+                              smallest, mk, mk, largest, e, mk, e, mk),
+                          "dragonbox_power(-minus_k) index in table; 1 <= beta < 64"))
+        for q in range(smallest, largest + 1):
+            facts.append(("%s::floor_log2_pow10(%d)" % (fname, q), _floor_log_fact("log2_pow10", q, "floor_log2_pow10(%d as int)" % q),
+                          "floor_log2_pow10 = q * %d >> %d" % (consts["floor_log2_pow10"][0], consts["floor_log2_pow10"][2])))
+    return facts, ["lexical-write-float::algorithm::floor_log10_pow2", "…::floor_log2_pow10",
+                   "…::compute_nearest_normal (table index / beta range per exponent)"], _log_prelude(consts)
+
+
+def _const_expr(src, name):
+    m = re.search(r'const %s: i32 =\s*(.*?);' % name, src, re.S)
+    if not m:
+        raise RuntimeError("lost anchor: const %s" % name)
+    return re.sub(r'\s+', ' ', m.group(1))
+
+
+def _to_spec_expr(expr, kappa, p):
+    e = re.sub(r',\s*\)', ')', expr)
+    e = e.replace("Self::KAPPA as i32", "%d" % kappa).replace("Self::KAPPA", "%d" % kappa)
+    e = e.replace("Self::MANTISSA_SIZE", "%d" % p).replace("F::MANTISSA_SIZE", "%d" % p)
+    if re.search(r'[A-Za-z_]+::', e):
+        raise RuntimeError("lost anchor: cannot translate const expression `%s`" % expr)
+    # integer literals: make every call argument an `int`
+    out = []
+    i = 0
+    while i < len(e):
+        m = re.compile(r'floor_log\w+\(').search(e, i)
+        if not m:
+            out.append(e[i:])
+            break
+        out.append(e[i:m.end()])
+        depth = 1
+        j = m.end()
+        while depth:
+            if e[j] == '(':
+                depth += 1
+            elif e[j] == ')':
+                depth -= 1
+            j += 1
+        inner = _to_spec_expr(e[m.end():j - 1], kappa, p)
+        out.append("(%s) as int)" % inner)
+        i = j
+    return "".join(out)
+
+
+@gen("wf-dragonbox-thresholds")
+def wf_dragonbox_thresholds():
+    """Every exponent threshold that lets the algorithm *skip* an exact test must satisfy the inequality it is
+    derived from (Jeon, Dragonbox paper sec. 4/5), checked per binary exponent."""
+    src = _read("lexical-write-float/src/algorithm.rs")
+    consts = _log_consts(src)
+    facts = []
+    div5 = _const_expr(src, "DIV_BY_5_THRESHOLD")
+    half = _const_expr(src, "FC_PM_HALF_LOWER")
+    for fname, f in FLOATS.items():
+        kappa = int(re.search(r'impl DragonboxFloat for %s \{\s*const KAPPA: u32 = (\d+);' % fname, src).group(1))
+        T = _to_spec_expr(div5, kappa, f["p"])
+        L = _to_spec_expr(half, kappa, f["p"])
+        for e in range(f["emin"], f["emax"] + 1):
+            mk = "(floor_log10_pow2(%d as int) - %d)" % (e, kappa)
+            # (1) e > DIV_BY_5_THRESHOLD: the left endpoint x = (2f-1) * 2^(e-1) / 10^minus_k is assumed NOT to be an
+            #     integer without looking; sound only if 5^minus_k exceeds every possible 2f-1 < 2^(p+2).
+            facts.append(("%s::DIV_BY_5_THRESHOLD skips the integer test at exponent %d" % (fname, e),
+                          "%d <= (%s) || (%s > 0 && pw(5, %s as nat) > pw(2, %d))" % (e, T, mk, mk, f["p"] + 2),
+                          "const DIV_BY_5_THRESHOLD: i32 = %s;" % div5))
+            # (2) e < FC_PM_HALF_LOWER: x cannot be an integer because the power of two in the denominator survives:
+            #     e - 1 - minus_k < 0
+            facts.append(("%s::FC_PM_HALF_LOWER skips the integer test at exponent %d" % (fname, e),
+                          "%d >= (%s) || (%d - 1 - %s < 0)" % (e, L, e, mk),
+                          "const FC_PM_HALF_LOWER: i32 = %s;" % half))
+    return facts, ["lexical-write-float::algorithm::DragonboxFloat::DIV_BY_5_THRESHOLD", "…::FC_PM_HALF_LOWER",
+                   "…::compute_nearest_normal (endpoint integer test)"], _log_prelude(consts)
